@@ -58,6 +58,9 @@ type thread struct {
 	done    bool
 	blocked interface{} // non-nil: waiting for this lock
 	steps   int
+	guard   func() bool // non-nil: runnable only while guard() holds (BlockOn)
+	dying   bool        // the thread is unwinding after a panic raised by a shim (Crash): its deferred shim calls neither yield nor log
+	waits   int         // number of BlockOn calls whose guard was false when called (the thread really had to wait)
 }
 
 // Sched is one controlled run.
@@ -68,7 +71,120 @@ type Sched struct {
 	W       *bufio.Writer
 	abort   bool
 	Layers  map[string]bool // nil = all layers yield
+	crashed string          // non-empty: a logical thread panicked (the real process would be dead): the run ends
 }
+
+// CatchPanics: a panic inside a logical thread is recovered, recorded (Result.Panics) and ends the run instead of killing the process.
+// OnIdle is consulted when nobody is runnable although threads are pending: it may change harness state (so that some guard becomes
+// true) and return true to continue; false = the run ends as a deadlock. Both are set by the poolstep harness only.
+var (
+	CatchPanics bool
+	OnIdle      func() bool
+)
+
+var panics []string
+
+// Spawn creates a new logical thread during a run (the shim of a `go` statement); it starts running when the picker first chooses it.
+func Spawn(body func()) int {
+	s := active
+	if s == nil || s.cur == nil {
+		panic("vsched.Spawn outside a controlled run")
+	}
+	t := &thread{id: len(s.threads), resume: make(chan struct{})}
+	s.threads = append(s.threads, t)
+	go s.threadMain(t, body)
+	return t.id
+}
+
+func (s *Sched) threadMain(t *thread, b func()) {
+	<-t.resume
+	// runs after every deferred call of the body, also when the thread is aborted (Goexit in Point) or panics
+	defer func() {
+		if CatchPanics {
+			if r := recover(); r != nil {
+				msg := fmt.Sprint(r)
+				if !t.dying {
+					fmt.Fprintf(s.W, "ch %d crash %s\n", t.id, sanitize(msg))
+				}
+				if s.crashed == "" {
+					s.crashed = msg
+				}
+				panics = append(panics, fmt.Sprintf("thread %d: %s", t.id, msg))
+			}
+		}
+		t.dying = false
+		t.done = true
+		s.yield <- struct{}{}
+	}()
+	if !s.abort {
+		b()
+	}
+}
+
+func sanitize(m string) string {
+	b := []byte(m)
+	for i, c := range b {
+		if c == ' ' || c == '\n' || c == '\t' {
+			b[i] = '_'
+		}
+	}
+	if len(b) > 120 {
+		b = b[:120]
+	}
+	return string(b)
+}
+
+// Crash is called by a shim that is about to raise a Go run-time panic of the modelled kind (send on closed channel, close of closed
+// channel, negative WaitGroup counter) AFTER it has logged the panic line: in the real program the process dies here, so the deferred
+// calls of the unwinding thread must not appear as further steps.
+func Crash(msg string) {
+	s := active
+	if s == nil || s.cur == nil {
+		panic(msg)
+	}
+	s.cur.dying = true
+	if s.crashed == "" {
+		s.crashed = msg
+	}
+	panic(msg)
+}
+
+// BlockOn parks the calling thread until it is granted a step at a moment when guard() holds (guard is evaluated by the scheduler
+// between steps, when no logical thread runs). It is ONE scheduling point.
+func BlockOn(guard func() bool) {
+	s := active
+	if s == nil || s.cur == nil {
+		panic("vsched.BlockOn outside a controlled run")
+	}
+	t := s.cur
+	if t.dying {
+		return
+	}
+	if !guard() {
+		t.waits++
+	}
+	t.guard = guard
+	Point()
+	t.guard = nil
+}
+
+// Waits reports how many times thread tid really had to wait in BlockOn so far.
+func Waits(tid int) int { return active.threads[tid].waits }
+
+// Steps reports the number of steps granted to thread tid so far.
+func Steps(tid int) int { return active.threads[tid].steps }
+
+// NThreads is the number of logical threads created so far in the current run.
+func NThreads() int { return len(active.threads) }
+
+// ThreadDone reports whether thread tid has finished.
+func ThreadDone(tid int) bool { return active.threads[tid].done }
+
+// Dying reports whether the running thread is unwinding after Crash.
+func Dying() bool { s := active; return s != nil && s.cur != nil && s.cur.dying }
+
+// Out gives the harness direct access to the trace writer of the current run.
+func Out() *bufio.Writer { return active.W }
 
 var active *Sched
 
@@ -91,11 +207,13 @@ func Point() {
 		return
 	}
 	t := s.cur
+	if t.dying {
+		return
+	}
 	s.yield <- struct{}{}
 	<-t.resume
 	if s.abort {
-		t.done = true
-		s.yield <- struct{}{}
+		t.dying = true // the deferred calls of the aborted body neither yield nor log; threadMain's deferred function yields last
 		runtime.Goexit()
 	}
 }
@@ -105,6 +223,9 @@ func Block(m interface{}) {
 	s := active
 	if s == nil || s.cur == nil {
 		panic("vsched.Block outside a controlled run")
+	}
+	if s.cur.dying {
+		return
 	}
 	s.cur.blocked = m
 	Point()
@@ -125,7 +246,7 @@ func Unblock(m interface{}) {
 
 // Logf appends a line to the trace of the current run.
 func Logf(format string, args ...interface{}) {
-	if s := active; s != nil && s.cur != nil {
+	if s := active; s != nil && s.cur != nil && !s.cur.dying {
 		fmt.Fprintf(s.W, format, args...)
 	}
 }
@@ -141,8 +262,9 @@ type Result struct {
 	Steps     int
 	PerThread []int
 	Done      []bool
-	Deadlock  bool // somebody not done, nobody runnable, nobody frozen by the picker
-	Budget    bool // step budget exhausted
+	Deadlock  bool     // somebody not done, nobody runnable, nobody frozen by the picker
+	Budget    bool     // step budget exhausted
+	Panics    []string // CatchPanics: recovered panics of logical threads
 }
 
 // Run executes bodies under pick. pick receives the runnable thread ids and the number of steps
@@ -155,16 +277,9 @@ func Run(w *bufio.Writer, layers map[string]bool, bodies []func(), budget int, p
 	for i, b := range bodies {
 		t := &thread{id: i, resume: make(chan struct{})}
 		s.threads = append(s.threads, t)
-		b := b
-		go func() {
-			<-t.resume
-			if !s.abort {
-				b()
-			}
-			t.done = true
-			s.yield <- struct{}{}
-		}()
+		go s.threadMain(t, b)
 	}
+	panics = nil
 	// bring every thread to its first Point (or completion) in id order; no shared access happens here
 	for _, t := range s.threads {
 		s.cur = t
@@ -179,15 +294,18 @@ func Run(w *bufio.Writer, layers map[string]bool, bodies []func(), budget int, p
 		for _, t := range s.threads {
 			if !t.done {
 				pending = true
-				if t.blocked == nil {
+				if t.blocked == nil && (t.guard == nil || t.guard()) {
 					runnable = append(runnable, t.id)
 				}
 			}
 		}
-		if !pending {
+		if !pending || s.crashed != "" {
 			break
 		}
 		if len(runnable) == 0 {
+			if OnIdle != nil && OnIdle() {
+				continue
+			}
 			res.Deadlock = true
 			break
 		}
@@ -207,13 +325,16 @@ func Run(w *bufio.Writer, layers map[string]bool, bodies []func(), budget int, p
 		res.Steps++
 		t.steps++
 	}
+	res.PerThread = make([]int, len(s.threads))
+	res.Done = make([]bool, len(s.threads))
 	for i, t := range s.threads {
 		res.PerThread[i] = t.steps
 		res.Done[i] = t.done
 	}
 	// abort whatever is still parked
 	s.abort = true
-	for _, t := range s.threads {
+	for i := 0; i < len(s.threads); i++ {
+		t := s.threads[i]
 		if !t.done {
 			s.cur = t
 			t.resume <- struct{}{}
@@ -221,5 +342,6 @@ func Run(w *bufio.Writer, layers map[string]bool, bodies []func(), budget int, p
 			s.cur = nil
 		}
 	}
+	res.Panics = panics
 	return res
 }
